@@ -30,12 +30,14 @@ def decode_plain(data: bytes):
             shift += 7
 
     while pos < len(data):
-        assert data[pos] == 0
+        if data[pos] != 0:
+            raise common.LibraryMisbehaved("malformed-plaintext-write", f"bytes written to the transport are not plaintext frames: {bytes(data[:24]).hex()}…")
         pos += 1
         ln = varint()
         ty = varint()
         out.append((ty, data[pos : pos + ln]))
-        assert pos + ln <= len(data)
+        if pos + ln > len(data):
+            raise common.LibraryMisbehaved("malformed-plaintext-write", f"a written plaintext frame announces {ln} payload bytes, {len(data) - pos} follow")
         pos += ln
     return out
 
